@@ -475,6 +475,26 @@ Theorem C06_giveup_example :
 Proof. exact giveup_example. Qed.
 Print Assumptions C06_giveup_example.
 
+(* The same for phase B: ErrInsufficientSignatureResponses is returned only after a report-signature request has gone
+   (accepted by PeerClient.Send or not) to EVERY configured signer that RMNHome knows - the error is reported only once
+   the report timer has fired, and when it fires every signer not yet asked is asked - and only with F_remote >= 0. *)
+Theorem C06_giveupB_only_after_asking_all : forall edv vrs cfg sc evs l,
+  run edv vrs fixed cfg sc evs = GFinal (Failure FInsufSigs) l ->
+  (0 <= c_remoteF cfg)%Z /\
+  forall n, In n (signer_nodes cfg) -> is_home cfg n = true ->
+  exists r, In r l /\ sd_kind r = 1%N /\ sd_node r = n.
+Proof. exact giveupB_only_after_asking_all. Qed.
+Print Assumptions C06_giveupB_only_after_asking_all.
+
+Theorem C06_giveupB_example :
+  exists l, run Witness.edv Witness.vrs fixed Witness.cfg Witness.sc
+              [Resp 1 (BMsg 1 (Witness.obs_of 21 105)); Resp 2 (BMsg 2 (Witness.obs_of 22 105));
+               Resp 1 (BMsg 3 (Witness.sig_of 9901)); TimerFire; Resp 2 (BMsg 4 (Witness.sig_of 9902));
+               Resp 3 (BMsg 5 (Witness.sig_of 9903))]%N = GFinal (Failure FInsufSigs) l /\
+            map (fun r => (sd_kind r, sd_node r)) l = [(0, 1); (0, 2); (1, 1); (1, 2); (1, 3)]%N.
+Proof. exact giveupB_example. Qed.
+Print Assumptions C06_giveupB_example.
+
 Theorem C06_requests_failure_example :
   (exists us, prepare Witness.cfg = inl (Ok us) /\
      map (fun r => (sd_kind r, sd_node r))
@@ -573,6 +593,44 @@ Theorem C06_judge_giveup_example :
 Proof. exact ExG.giveup_examples. Qed.
 Print Assumptions C06_judge_giveup_example.
 
+(* GIVING UP in phase B (executable twin of C06_giveupB_only_after_asking_all, clause [giveupB_ok]): a passing output that
+   reports ErrInsufficientSignatureResponses leaves fewer than F_remote+1 distinct configured signers known to RMNHome
+   without a report-signature request in its Send log ([unasked_signers], characterised by the second theorem): the
+   signers never asked could not by themselves have supplied the threshold.  Otherwise, in the world where those signers
+   are honest and ready, the call would fail although enough honest signers would answer in time (C06_liveness). *)
+Theorem C06_judge_giveupB_sound : forall i o,
+  c06_ok i o = true ->
+  exists x, o = [x] /\
+    (o_kind x = 6%N -> (zlen (dedupN (unasked_signers (i_cfg i) (o_log x))) < c_remoteF (i_cfg i) + 1)%Z).
+Proof. exact c06_giveupB_sound. Qed.
+Print Assumptions C06_judge_giveupB_sound.
+
+Theorem C06_judge_giveupB_unasked : forall cfg log n,
+  In n (unasked_signers cfg log) <->
+  In n (signer_nodes cfg) /\ is_home cfg n = true /\
+  ~ exists s, In s log /\ snd_kind s = 1%N /\ snd_node s = n.
+Proof. exact unasked_signers_in. Qed.
+Print Assumptions C06_judge_giveupB_unasked.
+
+(* (a), from C06_giveupB_only_after_asking_all: every outcome the model allows passes the clause. *)
+Theorem C06_judge_giveupB_model : forall off i x,
+  NoDup (map sg_node (c_signers (i_cfg i))) /\ NoDup (map sg_addr (c_signers (i_cfg i))) /\
+  NoDup (map hn_id (c_nodes (i_cfg i))) ->
+  In x (c06_model_from off i) -> giveupB_ok (i_cfg i) x = true.
+Proof. exact model_outcome_giveupB. Qed.
+Print Assumptions C06_judge_giveupB_model.
+
+(* Non-vacuity (ExGB.cfg0 = Witness.cfg with F_remote = 0: signers 1, 2, 3, the first request goes to signer 1 alone).
+   early: the output gives up after signer 1 alone was asked - signers 2 and 3 never were, one of them would do:
+   rejected, and the Prop-level clause fails.  late: 1 signs badly, the timer fires, 2 and 3 are asked and sign badly:
+   accepted, and it is what the model says. *)
+Theorem C06_judge_giveupB_example :
+  (giveupB_ok ExGB.cfg0 ExGB.early_out = false /\ ~ giveupB_P ExGB.cfg0 ExGB.early_out /\
+   unasked_signers ExGB.cfg0 (o_log ExGB.early_out) = [2; 3]%N) /\
+  (giveupB_ok ExGB.cfg0 ExGB.late_out = true /\ c06_oeqb (c06_model ExGB.inp_late) [ExGB.late_out] = true).
+Proof. exact ExGB.giveupB_examples. Qed.
+Print Assumptions C06_judge_giveupB_example.
+
 (* LIVENESS.  [live_test_from off i] IS the hypothesis of C06_liveness for the case, for EVERY schedule (iteration
    order of rmnNodeInfo, of the vote map) and EVERY event list (due timers, race resolutions) the model allows for it:
    [eager_evs] are the event lists behind the outcomes of the model, [sched_of] the schedules. *)
@@ -615,7 +673,7 @@ Proof. exact c06_live_sound. Qed.
 Print Assumptions C06_judge_c06_live_sound.
 
 (* histories: every call satisfies all clauses — C06_judge_c06_sound, the log / kind clauses, the liveness clause and
-   the give-up clause ([giveup_P] = the conclusion of C06_judge_giveup_sound) —
+   the give-up clauses ([giveup_P] / [giveupB_P] = the conclusions of C06_judge_giveup_sound / C06_judge_giveupB_sound) —
    against ITS configuration, ITS script and ITS position in the request-id stream ([c06_full_P off i x] is the
    conjunction of the conclusions above for input i, output x and id offset off). *)
 Theorem C06_judge_hist_sound_full : forall h o,
@@ -625,7 +683,7 @@ Theorem C06_judge_hist_sound_full : forall h o,
              kind_P (i_cfg (snd c)) (i_items (snd c)) x /\
              ((exists us rho, live_facts (N.to_nat (fst c)) (snd c) us rho) ->
               live_test_from (N.to_nat (fst c)) (snd c) = true -> o_kind x = 0%N) /\
-             giveup_P (i_cfg (snd c)) (i_items (snd c)) x) h o.
+             giveup_P (i_cfg (snd c)) (i_items (snd c)) x /\ giveupB_P (i_cfg (snd c)) x) h o.
 Proof. exact hist_sound_full. Qed.
 Print Assumptions C06_judge_hist_sound_full.
 
